@@ -48,6 +48,9 @@ func c14Check2(cs []tcue, d int64, filler bool, d2 int64) string {
 	snaps := make([]string, len(cs))
 	for k, c := range cs {
 		it := decorate(textItem(time.Duration(c.S), time.Duration(c.E), c.T), k)
+		if (len(cs)+int(d/ms))%6 == 5 {
+			it.Lines = nil // a list of cues that only clear the screen (no line at all): cues all the same
+		}
 		if k%2 == 0 {
 			it.InlineStyle = &astisub.StyleAttributes{WebVTTAlign: "left"}
 		}
